@@ -926,3 +926,32 @@ _GOOD_MEMO = _multi(
 ok("C18", "float-time step cache keyed by (group, dt, start_time)", _GOOD_MEMO)
 ok("C20", "float-time step cache keyed by (group, dt, start_time)", _GOOD_MEMO)
 ok("C15", "float-time step cache keyed by (group, dt, start_time)", _GOOD_MEMO)
+
+OP = "oqupy/operators.py"
+brk("C04", "dissipator with the full anticommutator", "D1", _sub(
+    SY, "        liouvillian += gamma * (opr.left_right_super(op, op_dagger) \\\n                                - 0.5 * opr.acommutator(np.dot(op_dagger, op)))",
+    "        liouvillian += gamma * (opr.left_right_super(op, op_dagger) \\\n                                - opr.acommutator(np.dot(op_dagger, op)))"))
+brk("C04", "dissipator anticommutator of L L^dagger", "D1", _sub(
+    SY, "        liouvillian += gamma * (opr.left_right_super(op, op_dagger) \\\n                                - 0.5 * opr.acommutator(np.dot(op_dagger, op)))",
+    "        liouvillian += gamma * (opr.left_right_super(op, op_dagger) \\\n                                - 0.5 * opr.acommutator(np.dot(op, op_dagger)))"))
+brk("C04", "chain site dissipator jump term with (L^dagger, L)", "D1", _sub(
+    SY, "            gamma * (opr.left_right_super(op, op_dagger) \\\n                      - 0.5 * opr.acommutator(np.dot(op_dagger, op)))",
+    "            gamma * (opr.left_right_super(op_dagger, op) \\\n                      - 0.5 * opr.acommutator(np.dot(op_dagger, op)))"))
+brk("C04", "two-site dissipator forgets the conjugate on the right factor", "D1", _sub(
+    SY, "            operator_2_r=op_r.T.conjugate())", "            operator_2_r=op_r.T)"))
+brk("C04", "right_super without the transpose", "D2", _sub(
+    OP, "    return np.kron(np.identity(dim), operator.T)\n\ndef left_right_super", "    return np.kron(np.identity(dim), operator)\n\ndef left_right_super"))
+brk("C04", "commutator with a plus sign", "D2", _sub(
+    OP, "    return np.kron(operator, np.identity(dim)) \\\n            - np.kron(np.identity(dim), operator.T)", "    return np.kron(operator, np.identity(dim)) \\\n            + np.kron(np.identity(dim), operator.T)"))
+brk("C04", "Hamiltonian part with the wrong sign", "D2", _sub(
+    SY, "    liouvillian = -1j * opr.commutator(hamiltonian)", "    liouvillian = 1j * opr.commutator(hamiltonian)"))
+brk("C04", "Gibbs state returned unnormalised", "D3", _sub(TE, "        state = state / state.trace()\n", ""))
+brk("C04", "influence exponent factor is the anticommutator", "D4", _sub(
+    TE, "                                + 1j*eta_dk.imag*op_p, op_m))", "                                + 1j*eta_dk.imag*op_p, op_p))"))
+brk("C04", "influence pairs Im(eta) with the commutator", "D4", _sub(
+    TE, "        infl = np.diag(np.exp(-op_m*(eta_dk.real*op_m \\\n                                        + 1j*eta_dk.imag*op_p)))", "        infl = np.diag(np.exp(-op_m*(eta_dk.real*op_m \\\n                                        + 1j*eta_dk.imag*op_m)))"))
+brk("C04", "influence exponent loses the imaginary unit", "D4", _sub(
+    TE, "        infl = np.exp(-np.outer(eta_dk.real*op_m \\\n                                + 1j*eta_dk.imag*op_p, op_m))", "        infl = np.exp(-np.outer(eta_dk.real*op_m \\\n                                + eta_dk.imag*op_p, op_m))"))
+ok("C04", "dissipator with op_dagger inlined", _sub(
+    SY, "        op_dagger = op.conjugate().T\n        liouvillian += gamma * (opr.left_right_super(op, op_dagger) \\\n                                - 0.5 * opr.acommutator(np.dot(op_dagger, op)))",
+    "        liouvillian += gamma * (opr.left_right_super(op, op.conj().T) \\\n                                - 0.5 * opr.acommutator(op.conj().T @ op))"))
